@@ -135,7 +135,7 @@ fn aligned_docs(ctx: &Ctx) -> Vec<Vec<u8>> {
     let mut docs = docs.into_inner().unwrap();
     docs.sort();
     docs.dedup();
-    let ps: Vec<usize> = if ctx.quick() { vec![0, 16, 31] } else { vec![0, 1, 2, 7, 14, 15, 16, 17, 30, 31, 32, 33, 47, 48, 63, 64, 65] };
+    let ps: Vec<usize> = if ctx.quick() { vec![0, 31] } else { vec![0, 1, 2, 7, 14, 15, 16, 17, 30, 31, 32, 33, 47, 48, 63, 64, 65] };
     let qs: [usize; 2] = [0, 40];
     let mut out = Vec::with_capacity(docs.len() * ps.len() * 2);
     for d in &docs {
